@@ -324,6 +324,37 @@ def evaluate(recs, metaB):
     return violations, disagreements
 
 
+KNOWN_F07E = 'colliding_key_pair_served_others_result'
+
+
+def colliding_pairs_probe():
+    """the two input classes whose cache keys collide (known findings F07, F07c): the second member of a pair, run after
+    the first under one storage, must get ITS result. Returns the list of violations (known_match F07e)."""
+    import logging
+    import labtech
+    import colltasks as CT
+    labtech.logger.setLevel(logging.CRITICAL)
+    out = []
+    pairs = [('dict spelling a task', CT.Echo(p={'_is_task': True, '__class__': 'colltasks.Leaf', 'x': 1}), CT.Echo(p=CT.Leaf(x=1))),
+             ('surrogate pair', CT.Echo(p=chr(0xD800) + chr(0xDC00)), CT.Echo(p=chr(0x10000)))]
+    for name, a, b in pairs:
+        d = tempfile.mkdtemp(prefix='verif-c06c-')
+        try:
+            want_b = b.run() if name != 'dict spelling a task' else 'Leaf'
+            lab = labtech.Lab(storage=d, runner_backend='serial')
+            lab.run_tasks([a], disable_progress=True, disable_top=True)
+            got = lab.run_tasks([b], disable_progress=True, disable_top=True).get(b)
+            if a != b and got != want_b:
+                out.append(dict(what=f'colliding cache keys ({name}): the second task was served the result stored for the first ({got!r} instead of {want_b!r})',
+                                replay=dict(kind='collision-probe', pair=name), known_match=KNOWN_F07E))
+        except BaseException as e:
+            out.append(dict(what=f'colliding cache keys ({name}): probe raised {type(e).__name__}: {e}'[:200],
+                            replay=dict(kind='collision-probe', pair=name), known_match=KNOWN_F07E))
+        finally:
+            shutil.rmtree(d, ignore_errors=True)
+    return out
+
+
 def run(ctx):
     tier, seed = ctx['tier'], ctx['seed']
     t0 = time.time()
@@ -355,6 +386,7 @@ def run(ctx):
         return dict(evaluations=0, disagreements=[dict(diff='driver does not build')], violations=[])
     n = 150 if tier == 'quick' else 2000
     cases = [gen_case(rng) for _ in range(n)]
+    collide = colliding_pairs_probe()
     metas = [[enc_dt(s), enc_td(d)] for s, d in gen_meta(rng)]
     # the confusable-task and __main__-script families (props/c06x.py) run alongside
     import threading
@@ -378,6 +410,7 @@ def run(ctx):
         v2, _ = evaluate(recs2, [])
         viol += v2
         recs += recs2
+    viol = collide + viol   # (known finding F07e; after the enlarged search so that it does not suppress it)
     nontrivial = [r for r in recs if r['loaded2']]
     dist = dict(
         histories=len(recs), backend_pairs={},
@@ -402,7 +435,7 @@ def run(ctx):
         distinct_nontrivial=len({json.dumps(r['case'], sort_keys=True) for r in nontrivial}) + xbox['nontrivial'],
         rule='generated two-run histories (8 tasks with dependencies over 3 types / 2 cache classes, first run serial|fork|spawn, second run in a fresh interpreter with another PYTHONHASHSEED and another backend, second request equal / different / superset; free-text parameters with non-ASCII / astral / lone-surrogate / NUL characters; text encodings of the two interpreters UTF-8->ASCII (legacy C locale), ASCII->UTF-8, UTF-8->UTF-8) + save/load round trips of generated start/duration pairs; + sequences of ==-equal-but-differently-typed (confusable) tasks constructed and run one after the other in one process, re-checked in a fresh interpreter + a generated __main__ script (task classes defined in the script) run twice with spawn first / spawn second; non-trivial = the second run served at least one task from the cache',
         samples=[dict(case=r['case'], real=r['real']) for r in nontrivial[:2]] + xbox['samples'],
-        violations=viol[:5], disagreements=dis[:5], distribution=dist,
+        violations=viol[:7], disagreements=dis[:5], distribution=dist,
         assumptions=['distinct tasks have distinct cache keys (C07; the recorded finding F07 is outside this universe)',
                      'durations up to ~10 years (float seconds keep microsecond precision up to ~140 years)',
                      'real serial / fork / spawn backends; LocalStorage'],
